@@ -247,7 +247,7 @@ class C19:
     prop = "C19"
     level = "exploration"
     design_ref = "DESIGN.md 3.9"
-    tiers = {"quick": {"runs": 5000, "budget_s": 55, "chunk": 40, "twice_every": 20, "shrink_s": 40},
+    tiers = {"quick": {"runs": 16000, "budget_s": 80, "chunk": 80, "twice_every": 20, "shrink_s": 40},
              "thorough": {"runs": 400000, "budget_s": 840, "chunk": 80, "twice_every": 40, "shrink_s": 120}}
     rule = ("one run = 2-5 callers (threads sharing one ConcurrentCacher, or processes with one each) x 1-6 operations "
             "(get_set with list/iterator/generator/value getters, nested same-key or higher-ranked-key get_set, rmv) on "
